@@ -141,6 +141,22 @@ CHECKS = {
         technique="TLA+ heap machine (SpatialMath.tla) model-checked + simulated by TLC; behaviour replay with full-heap "
                   "content hashes; table-driven argument snapshots",
         ref="6 (C17), 2.4"),
+    "C12": dict(
+        text="ExactQuat.tla states every identity of the statement as a theorem over the integers and TLC evaluates each on "
+             "a grid that is sufficient for its polynomial degree ({0,1}^n for multilinear ones, {0,1,2}^n for quadratic "
+             "ones, all basis tuples for the trilinear dual-quaternion laws) - a proof for the specification over any "
+             "commutative ring - plus unit dual norm and homomorphism of the rigid-motion embedding on the rational "
+             "lattice. The implementation (base functions, Quaternion / UnitQuaternion / DualQuaternion operators and "
+             "methods) is executed on the same grids, random integers and sigma-scaled copies; results are logged as "
+             "integer events and judged by TLC (QuatTrace.tla), ~13k events per run. exp/log: lattice values and the two "
+             "round-trip laws on sampled magnitudes 1e-6..1e6 and |v| up to pi-1e-6; dual norm (1,0) for every unit "
+             "dual quaternion built from lattice motions at scales 1e-3..1e6.",
+        note="The 'proof' reading needs the assumption that each implementation function is a polynomial map of the "
+             "stated degree (checked on extra points, not proved). The symbolic execution of library code mentioned in "
+             "the statement's quantifier is a different technique and is not used.",
+        technique="TLA+ exact algebra with TLC-evaluated theorems on degree-sufficient grids; recorded integer events "
+                  "judged by TLC (trace validation of pure functions)",
+        ref="6 (C12), 2.2"),
 }
 
 ENGINE = {"name": "tlc-replay", "path": "/verif/check",
